@@ -1,7 +1,7 @@
 """C15 — omitted low-Q correction = transform of the linear-to-zero S(Q) model (real code)."""
 import numpy as np
 import impl
-from gen import grid, data, material
+from gen import grid, data, material, special
 from .common import tolist
 
 LEAN = "PystogVerif.Props.C15"
@@ -9,7 +9,7 @@ ENTRIES = ["Transformer._low_x_correction", "Transformer.fourier_transform", "Tr
 RULE = ("random Q grid starting at Qmin>0 (or exactly 0 in 15%), S(Q) data, r grid (with r=0 in 40%), Lorch on/off, density; the "
         "added term (with minus without OmittedXrangeCorrection) is compared with (2/pi) int_0^Qmin Q[S_lin(Q)-1] w(Q) sin(Qr) dQ "
         "by 400-point Gauss-Legendre quadrature, for all four input and three output functions; non-trivial = Qmin>0 and >= 3 Q points")
-DIST = ["lorch", "qmin0", "out", "inp", "uniform", "xmin"]
+DIST = ["lorch", "qmin0", "out", "inp", "uniform", "smin_is_1"]
 SHRINK = None
 _GL = np.polynomial.legendre.leggauss(400)
 
@@ -19,6 +19,7 @@ def gen(rng, i, tier):
     qmin0 = bool(rng.random() < 0.15)
     q, _ = grid(rng, n=n, zero=qmin0, lo=float(rng.uniform(0.2, 1.5)), hi=float(rng.uniform(8, 30)))
     s, _ = data(rng, q, kind=str(rng.choice(["noise", "smooth", "const"])), base=1.0)
+    s = special(rng, s, base=1.0, p=0.3)   # S exactly 1 at some points, often at Qmin: Q[S-1], F_K, DCS-<b_tot^2> exactly 0 there
     r, _ = grid(rng, n=int(rng.integers(2, 12)), zero=bool(rng.random() < 0.4), hi=float(rng.uniform(2, 12)))
     uniform = bool(rng.random() < 0.35) and not qmin0
     if uniform:
@@ -27,7 +28,7 @@ def gen(rng, i, tier):
     if not qmin0 and not uniform and len(q) > 6 and rng.random() < 0.3:
         k = int(rng.integers(1, len(q) // 2))
         win = float(q[k] - rng.uniform(0.1, 0.9) * (q[k] - q[k - 1]))  # strictly between two grid points
-    return dict(q=tolist(q), s=tolist(s), r=tolist(r), lorch=bool(rng.random() < 0.5), qmin0=qmin0, kw=material(rng), uniform=uniform, xmin=win,
+    return dict(q=tolist(q), s=tolist(s), r=tolist(r), lorch=bool(rng.random() < 0.5), qmin0=qmin0, kw=material(rng), uniform=uniform, xmin=win, smin_is_1=bool(s[0] == 1.0),
                 nr=int(rng.integers(2, 30)), delr=float(rng.uniform(0.02, 0.4)),
                 out=str(rng.choice(["G", "g", "GK"])), inp=str(rng.choice(["S", "F", "FK", "DCS"])), s2scale=float(rng.uniform(0.5, 2)))
 
